@@ -105,9 +105,13 @@ def canon(n, data=True):
 def unordered(c):
     """canon with sibling order forgotten (for producers that do not keep declaration order)."""
     if isinstance(c, dict):
+        # the endpoint order inside one net is the wire order and is kept; the list of nets is sorted
         return {k: (unordered(v) if k != 'nets' else sorted([[x[0], x[1], x[2]] for x in v], key=repr)) for k, v in c.items()}
-    if isinstance(c, list) and c and all(isinstance(x, list) and len(x) >= 1 for x in c):
-        return sorted([unordered(x) for x in c], key=repr)
+    if isinstance(c, list):
+        inner = [unordered(x) for x in c]
+        if inner and all(isinstance(x, list) and len(x) >= 1 for x in inner):
+            return sorted(inner, key=repr)
+        return inner
     return c
 
 
